@@ -14,6 +14,8 @@ import time
 
 import lib
 
+MAX_TLC_PROCS = 6      # shared machine: at most ~6 TLC processes at once from one check (CONVENTIONS)
+
 CASE_RE = re.compile(r'^<<"CASE", (".*")>>$')
 
 
@@ -89,17 +91,17 @@ def c06_jobs(tier, seed):
     jobs = []
     # 1. exhaustive theorems: all n, all pivots, all coin tables
     jobs.append(("theorems", cfg_text(shuffle_constants(MaxN=5 if q else 7, MaxR=2), "Init", "Next",
-                                      SHUFFLE_THEOREMS, "EmitCase"), 6 if q else 16, 3000, False))
+                                      SHUFFLE_THEOREMS, "EmitCase"), 4 if q else 10, 6000, False))
     if q:
         jobs.append(("theorems-n6-r1", cfg_text(shuffle_constants(MinN=6, MaxN=7, MaxR=1), "Init", "Next",
-                                                SHUFFLE_THEOREMS, "EmitCase"), 2, 1500, False))
+                                                SHUFFLE_THEOREMS, "EmitCase"), 2, 6000, False))
     # (thorough) three rounds for the smaller sizes
     if not q:
         jobs.append(("theorems3", cfg_text(shuffle_constants(MaxN=4, MaxR=3), "Init", "Next",
-                                           SHUFFLE_THEOREMS, "EmitCase"), 4, 1500, False))
+                                           SHUFFLE_THEOREMS, "EmitCase"), 4, 6000, False))
     # 2. exhaustive test-case generation for the replayer
     jobs.append(("emit-small", cfg_text(shuffle_constants(MaxN=4 if q else 5, MaxR=2, Emit="TRUE"), "Init", "Next",
-                                        SHUFFLE_THEOREMS, "EmitCase"), 4 if q else 8, 1500, True))
+                                        SHUFFLE_THEOREMS, "EmitCase"), 4 if q else 8, 6000, True))
     # 3. structured corner cases around multiples of 8 / 256
     if q:
         groups = [[2, 3, 8, 9], [255], [256], [257], [258], [511], [512], [513], [514]]
@@ -112,7 +114,7 @@ def c06_jobs(tier, seed):
         for r in rounds:
             jobs.append(("struct-%s-r%d" % ("_".join(map(str, g)), r),
                          cfg_text(shuffle_constants(Emit="TRUE", GenSizes=tla_set(g), GenRounds=tla_set([r])),
-                                  "InitGen", "NextStructured", ["InvDerived", "InvBig", "InvCodec"], "EmitCase"), 1, 1500, True))
+                                  "InitGen", "NextStructured", ["InvDerived", "InvBig", "InvCodec"], "EmitCase"), 1, 6000, True))
     # 4. pseudo-random cases seeded by VERIF_SEED
     nrand = 4 if q else 16
     for k in range(nrand):
@@ -120,7 +122,7 @@ def c06_jobs(tier, seed):
                      cfg_text(shuffle_constants(Emit="TRUE", GenRounds=tla_set([1, 2, 3] if q else [1, 2, 3, 5]),
                                                 GenSeed=(seed * 131 + k * 17 + 7) % 30011,
                                                 NRandom=40 if q else 60, RandMaxN=700 if q else 1100),
-                              "InitGen", "NextRandom", ["InvDerived", "InvBig", "InvCodec"], "EmitCase"), 1, 1500, True))
+                              "InitGen", "NextRandom", ["InvDerived", "InvBig", "InvCodec"], "EmitCase"), 1, 6000, True))
     return jobs
 
 
@@ -198,7 +200,7 @@ def record_shuffle(plan, name="rec", binary=None):
     return [l for l in open(ep).read().splitlines() if l.strip()]
 
 
-def validate_trace(module, lines, name, diagnose=False, timeout=1500):
+def validate_trace(module, lines, name, diagnose=False, timeout=6000):
     """Run <module>.tla on the given ndjson lines. Returns (accepted_all, first_rejected_index or None, TLCResult)."""
     cfg = cfg_text({"TraceFile": '"trace.ndjson"', "Diagnose": "TRUE" if diagnose else "FALSE"},
                    "Init", "Next", post="AllAccepted")
@@ -252,7 +254,7 @@ def shard(lines, k, weight=len):
 
 def validate_sharded(module, lines, name, nshards=None, weight=len):
     """Validate independent events in parallel TLC processes. Returns (rejected_indices(first per shard), results)."""
-    nshards = nshards or lib.NCPU
+    nshards = nshards or MAX_TLC_PROCS
     shards = shard(lines, nshards, weight)
 
     def work(arg):
@@ -271,7 +273,7 @@ def c06_spec_to_code(tier, seed, cov, binary=None):
     jobs = c06_jobs(tier, seed)
     t = time.time()
     # the big exhaustive run gets its own workers; the single-worker generators fill the remaining cores
-    results = lib.parallel_map(run_shuffle_job, jobs, workers=max(2, lib.NCPU - 6))
+    results = lib.parallel_map(run_shuffle_job, jobs, workers=MAX_TLC_PROCS)
     cov["tlc_wall_s"] = round(time.time() - t, 1)
     allcases = []
     for name, res, cases in results:
@@ -467,13 +469,13 @@ def c07_model_jobs(tier, seed):
     q = tier == "quick"
     jobs = [("partition-exhaustive",
              cfg_text({"MaxV": 5 if q else 6, "GenSeed": 1, "NCases": 0, "Emit": "FALSE"}, "InitA", "NextA", ["InvA"]),
-             6 if q else 12, 2400, False)]
+             4 if q else 8, 6000, False)]
     ngen = 5 if q else 24
     for k in range(ngen):
         jobs.append(("gen-%d" % k,
                      cfg_text({"MaxV": 10 + 2 * (k % 4) if q else 10 + 3 * (k % 8),
                                "GenSeed": (seed * 271 + k * 31 + 5) % 30011, "NCases": 2 if q else 3, "Emit": "TRUE"},
-                              "InitB", "NextB", ["InvB"]), 2, 2400, True))
+                              "InitB", "NextB", ["InvB"]), 2, 6000, True))
     return jobs
 
 
@@ -501,7 +503,7 @@ def replay_committee_cases(cases, name="cases", binary=None):
 def c07_spec_to_code(tier, seed, cov, binary=None):
     jobs = c07_model_jobs(tier, seed)
     t = time.time()
-    results = lib.parallel_map(run_committee_job, jobs, workers=max(2, lib.NCPU // 2))
+    results = lib.parallel_map(run_committee_job, jobs, workers=MAX_TLC_PROCS)
     cov["tlc_wall_s"] = round(time.time() - t, 1)
     allcases = []
     for name, res, cases in results:
@@ -628,7 +630,7 @@ def record_committees(plan, name="rec", binary=None):
     return kept
 
 
-def validate_committee_trace(lines, name, deviations, diagnose=False, timeout=2400):
+def validate_committee_trace(lines, name, deviations, diagnose=False, timeout=6000):
     """Returns (first_rejected_index or None, TLCResult, deviation_lines, cov_by_line)."""
     cfg = cfg_text({"TraceFile": '"trace.ndjson"', "Diagnose": "TRUE" if diagnose else "FALSE",
                     "KnownDeviations": "{" + ", ".join('"%s"' % d for d in sorted(deviations)) + "}"},
@@ -677,7 +679,7 @@ def c07_code_to_spec(tier, seed, cov, binary=None, plan=None):
     lines = record_committees(plan, "rec", binary)
     groups = group_by_chain(lines)
     # balance groups over shards by bytes
-    nsh = min(lib.NCPU, max(1, len(groups)))
+    nsh = min(MAX_TLC_PROCS, max(1, len(groups)))
     shards = [[] for _ in range(nsh)]
     loads = [0] * nsh
     for g in sorted(groups, key=lambda g: -sum(len(lines[i]) for i in g)):
